@@ -258,7 +258,11 @@ impl EventGen for GroupElement {
             events.push(OutputEvent::Start(new_el));
 
             if let Some(inner_events) = self.0.inner_events(context) {
-                let (ev_list, bb) = process_events(inner_events, context)?;
+                // the scope must not outlive this element, including when its content
+                // fails (e.g. a forward reference) and the group is retried later
+                let (ev_list, bb) = process_events(inner_events, context).inspect_err(|_| {
+                    context.pop_element();
+                })?;
                 content_bb = bb;
                 events.extend(&ev_list);
             }
